@@ -13,41 +13,42 @@ Section C12.
   Variable blacklisted in_pip in_stdlib : string -> bool.
   Variable follow_local follow_pip follow_stdlib : bool.
   Variable imports_in : string -> list (string * string).
+  Variable has_source : string -> bool.
 
-  Notation analysed := (analysed module_of origin_of blacklisted in_pip in_stdlib follow_local follow_pip follow_stdlib imports_in).
+  Notation analysed := (analysed module_of origin_of blacklisted in_pip in_stdlib follow_local follow_pip follow_stdlib imports_in has_source).
   Notation permitted := (permitted blacklisted in_pip in_stdlib follow_pip follow_stdlib).
 
   (* every analysed module passed the ladder: not blacklisted, pip only at level >= 2, stdlib only at level 3;
      and nothing is analysed at level 0 *)
   Theorem C12_only_permitted_modules_are_analysed :
     forall fuel q0 res, analysed fuel q0 = Some res ->
-      forall x, In x res -> (permitted (fst x) = true /\ origin_of (fst x) = Some (snd x)) /\ follow_local = true.
-  Proof. exact (analysed_only_permitted module_of origin_of blacklisted in_pip in_stdlib follow_local follow_pip follow_stdlib imports_in). Qed.
+      forall x, In x res -> (permitted (fst x) = true /\ origin_of (fst x) = Some (snd x) /\ has_source (snd x) = true) /\ follow_local = true.
+  Proof. exact (analysed_only_permitted module_of origin_of blacklisted in_pip in_stdlib follow_local follow_pip follow_stdlib imports_in has_source). Qed.
 
   Theorem C12_level_0_analyses_nothing :
     forall fuel q0, follow_local = false -> analysed fuel q0 = Some [].
-  Proof. exact (level0_analyses_nothing module_of origin_of blacklisted in_pip in_stdlib follow_local follow_pip follow_stdlib imports_in). Qed.
+  Proof. exact (level0_analyses_nothing module_of origin_of blacklisted in_pip in_stdlib follow_local follow_pip follow_stdlib imports_in has_source). Qed.
 
   (* each file at most once, for any import graph (cycles and diamonds included) *)
   Theorem C12_each_origin_once :
     forall fuel q0 res, analysed fuel q0 = Some res -> NoDup (map snd res).
-  Proof. exact (analysed_each_origin_once module_of origin_of blacklisted in_pip in_stdlib follow_local follow_pip follow_stdlib imports_in). Qed.
+  Proof. exact (analysed_each_origin_once module_of origin_of blacklisted in_pip in_stdlib follow_local follow_pip follow_stdlib imports_in has_source). Qed.
 
   (* completeness: every import of the target and of every analysed module either does not resolve, is not
-     permitted, or names an analysed module - so every permitted module reachable through permitted modules
+     permitted, has no Python source, or names an analysed module - so every permitted module reachable through permitted modules
      is analysed *)
   Theorem C12_analysed_set_is_closed :
     forall fuel q0 res, follow_local = true -> analysed fuel q0 = Some res ->
-      (forall i, In i q0 -> handled module_of origin_of blacklisted in_pip in_stdlib follow_pip follow_stdlib (map snd res) i)
+      (forall i, In i q0 -> handled module_of origin_of blacklisted in_pip in_stdlib follow_pip follow_stdlib has_source (map snd res) i)
       /\ (forall x, In x res -> forall i, In i (imports_in (snd x)) ->
-            handled module_of origin_of blacklisted in_pip in_stdlib follow_pip follow_stdlib (map snd res) i).
-  Proof. exact (analysed_closed module_of origin_of blacklisted in_pip in_stdlib follow_local follow_pip follow_stdlib imports_in). Qed.
+            handled module_of origin_of blacklisted in_pip in_stdlib follow_pip follow_stdlib has_source (map snd res) i).
+  Proof. exact (analysed_closed module_of origin_of blacklisted in_pip in_stdlib follow_local follow_pip follow_stdlib imports_in has_source). Qed.
 
   (* functions of modules that were not analysed (or are not permitted) contribute nothing: the resolver only
      ever answers with a function that has an IR in an analysed, permitted module *)
   Theorem C12_unanalysed_modules_contribute_nothing :
-    forall fuel irs tn tq mn ln c,
-      resolve_import module_of blacklisted in_pip in_stdlib follow_local follow_pip follow_stdlib fuel irs tn tq = RTarget mn ln c ->
+    forall fuel irs vis tn tq mn ln c,
+      resolve_import module_of blacklisted in_pip in_stdlib follow_local follow_pip follow_stdlib fuel irs vis tn tq = RTarget mn ln c ->
       (exists m, In m irs /\ m_name m = mn /\ In ln (m_ir m)) /\ permitted mn = true /\ follow_local = true.
   Proof. exact (resolved_only_in_analysed_permitted module_of blacklisted in_pip in_stdlib follow_local follow_pip follow_stdlib). Qed.
 End C12.
@@ -62,7 +63,7 @@ Definition g_imports (o : string) : list (string * string) :=
   if String.eqb o "a.py" then [("c", "c")] else if String.eqb o "b.py" then [("c", "c"); ("x", "pipx")]
   else if String.eqb o "c.py" then [("a", "a")] else [].
 Example C12_diamond_with_cycle :
-  analysed g_mod g_org (fun m => String.eqb m "black") (fun m => String.eqb m "pipx") (fun _ => false) true false false g_imports 20
+  analysed g_mod g_org (fun m => String.eqb m "black") (fun m => String.eqb m "pipx") (fun _ => false) true false false g_imports (fun _ => true) 20
            [("a", "a"); ("b", "b"); ("k", "black")]
   = Some [("a", "a.py"); ("b", "b.py"); ("c", "c.py")].
 Proof. reflexivity. Qed.
